@@ -66,7 +66,7 @@ def ensure_backtrace_patch():
         os.rename(tmp, BT)
 
 
-def prepare_copy(dst, harness_files, annotations=(), use_map_shim=False, extra_mods=()):
+def prepare_copy(dst, harness_files, annotations=(), use_map_shim=False, extra_mods=(), inject=()):
     """rsync /repo -> dst, inject harness module + in-place contract attributes."""
     os.makedirs(dst, exist_ok=True)
     subprocess.run(["rsync", "-a", "--delete", "--exclude", "target", "--exclude", ".git", REPO + "/", dst + "/"],
@@ -84,6 +84,21 @@ def prepare_copy(dst, harness_files, annotations=(), use_map_shim=False, extra_m
         mod += f"\npub mod {name};\n"
         names.append(name)
     open(os.path.join(hd, "mod.rs"), "w").write(mod)
+    # harness files injected as CHILD modules of a real module (to reach its private items)
+    inj_mods = []
+    for inj in inject:
+        name = os.path.splitext(os.path.basename(inj["file"]))[0]
+        shutil.copy(os.path.join(VERIF, inj["file"]), os.path.join(hd, name + ".rs"))
+        tgt = os.path.join(dst, inj["into"])
+        if not os.path.isfile(tgt):
+            raise AnchorError(f"inject target {inj['into']} missing")
+        rel = os.path.relpath(os.path.join(hd, name + ".rs"), os.path.dirname(tgt))
+        with open(tgt, "a") as fh:
+            fh.write(f"\n#[cfg(any(kani, verif_replay))]\n#[path = \"{rel}\"]\npub mod verif_{name};\n")
+        modpath = inj["into"][len("src/"):-len(".rs")].replace("/", "::")
+        if modpath.endswith("::mod"):
+            modpath = modpath[:-5]
+        inj_mods.append((f"{modpath}::verif_{name}", os.path.join(VERIF, inj["file"])))
     lib = os.path.join(dst, "src", "lib.rs")
     s = open(lib).read()
     s += "\n#[cfg(any(kani, verif_replay))]\npub mod verif_harness;\n"
@@ -93,11 +108,10 @@ def prepare_copy(dst, harness_files, annotations=(), use_map_shim=False, extra_m
     open(lib, "w").write(s)
     # generated replay example: dispatch by harness name
     fns = []
-    for hf in harness_files:
-        name = os.path.splitext(os.path.basename(hf))[0]
+    for modname, hf in [("verif_harness::" + os.path.splitext(os.path.basename(h))[0], h) for h in harness_files] + inj_mods:
         txt = open(hf).read()
         for m in re.finditer(r"#\[cfg_attr\(kani,\s*kani::proof(?:_for_contract\([^)]*\))?\)\][^{;]*?pub fn (\w+)\s*\(\)", txt, re.S):
-            fns.append((name, m.group(1)))
+            fns.append((modname, m.group(1)))
     ex = os.path.join(dst, "examples", "verif_replay.rs")
     os.makedirs(os.path.dirname(ex), exist_ok=True)
     with open(ex, "w") as fh:
@@ -106,7 +120,7 @@ def prepare_copy(dst, harness_files, annotations=(), use_map_shim=False, extra_m
         fh.write("    let vals: Vec<Vec<u8>> = a[2..].iter().map(|s| if s == \"-\" { vec![] } else { s.split(',').map(|b| b.parse().unwrap()).collect() }).collect();\n")
         fh.write("    mahf::verif_harness::replay_input::load(vals);\n    match a[1].as_str() {\n")
         for mod_, f in fns:
-            fh.write(f"        \"{f}\" => mahf::verif_harness::{mod_}::{f}(),\n")
+            fh.write(f"        \"{f}\" => mahf::{mod_}::{f}(),\n")
         fh.write("        other => { eprintln!(\"unknown harness {other}\"); std::process::exit(5) }\n    }\n")
         fh.write("    println!(\"VERIF-REPLAY-PASSED\");\n}\n")
     # in-place contract attributes
@@ -253,7 +267,7 @@ class KaniRun:
 
 
 def run(harness_files, pattern, annotations=(), use_map_shim=False, map_shim_files=(), timeout_s=1500,
-        harness_timeout="600s", jobs=None, keep=False, extra_args=(), mem_gb=40):
+        harness_timeout="600s", jobs=None, keep=False, extra_args=(), mem_gb=40, inject=(), playback=True):
     """Compile the scratch copy with the harness modules and run all harnesses matching `pattern`."""
     kr = KaniRun()
     t0 = time.time()
@@ -267,7 +281,7 @@ def run(harness_files, pattern, annotations=(), use_map_shim=False, map_shim_fil
     try:
         dst = os.path.join(d, "repo")
         try:
-            kr.harnesses, kr.annotations = prepare_copy(dst, harness_files, annotations, use_map_shim)
+            kr.harnesses, kr.annotations = prepare_copy(dst, harness_files, annotations, use_map_shim, inject=inject)
             if use_map_shim:
                 apply_map_shim(dst, map_shim_files)
         except AnchorError as e:
@@ -296,16 +310,23 @@ def run(harness_files, pattern, annotations=(), use_map_shim=False, map_shim_fil
         kr.results = parse_kani_output(out)
         # playback for failed harnesses (sequential; incompatible with -j)
         failed = [n for n, r in kr.results.items() if r.status == "failed"]
-        for n in failed[:8]:
-            cmd2 = ["cargo", "kani", "-Z", "function-contracts", "-Z", "stubbing", "-Z", "concrete-playback",
-                    "--concrete-playback=print", "--output-format", "terse", "--target-dir", tgt,
-                    "--harness", n] + list(extra_args)
-            o2 = _run_limited(cmd2, dst, 900, mem_gb)
-            if o2:
-                r2 = parse_kani_output(o2).get(n)
-                if r2 and r2.playback is not None:
-                    kr.results[n].playback = r2.playback
-                    kr.results[n].raw += "\n--- playback run ---\n" + r2.raw
+        if playback and failed:
+            from concurrent.futures import ThreadPoolExecutor
+
+            def _pb(n):
+                cmd2 = ["cargo", "kani", "-Z", "function-contracts", "-Z", "stubbing", "-Z", "concrete-playback",
+                        "--concrete-playback=print", "--output-format", "terse", "--target-dir", tgt,
+                        "--harness", n, "--exact"] + list(extra_args)
+                # the failing run took time_s; give the playback run a few times that, at most 10 minutes
+                lim = min(600, max(120, int(4 * (kr.results[n].time_s or 60)) + 60))
+                return n, _run_limited([c for c in cmd2 if c != "--exact"], dst, lim, mem_gb)
+            with ThreadPoolExecutor(max_workers=4) as ex:
+                for n, o2 in ex.map(_pb, failed[:6]):
+                    if o2:
+                        r2 = parse_kani_output(o2).get(n)
+                        if r2 and r2.playback is not None:
+                            kr.results[n].playback = r2.playback
+                            kr.results[n].raw += "\n--- playback run ---\n" + r2.raw
         if keep:
             kr.keep_dst = dst
     finally:
@@ -316,37 +337,45 @@ def run(harness_files, pattern, annotations=(), use_map_shim=False, map_shim_fil
 
 
 def _run_limited(cmd, cwd, timeout_s, mem_gb):
-    """Run with wall-clock limit and address-space limit per process (prlimit); returns combined output or None."""
+    """Run in its own process group with a wall-clock limit and a per-process address-space limit (prlimit);
+    on timeout the whole group (cargo, kani-driver, cbmc, kissat ...) is killed.  Returns combined output or None."""
+    import signal
+    import tempfile
     full = ["prlimit", f"--as={int(mem_gb * 1024**3)}"] + cmd
-    try:
-        p = subprocess.run(full, cwd=cwd, env=ENV, capture_output=True, text=True, timeout=timeout_s)
-    except subprocess.TimeoutExpired as e:
-        _kill_children()
-        return None
-    return (p.stdout or "") + "\n" + (p.stderr or "")
-
-
-def _kill_children():
-    try:
-        out = subprocess.run(["pgrep", "-P", str(os.getpid())], capture_output=True, text=True).stdout.split()
-        for pid in out:
-            subprocess.run(["pkill", "-KILL", "-P", pid])
-            subprocess.run(["kill", "-KILL", pid])
-    except Exception:
-        pass
+    with tempfile.TemporaryFile(mode="w+") as out:
+        p = subprocess.Popen(full, cwd=cwd, env=ENV, stdout=out, stderr=subprocess.STDOUT, start_new_session=True)
+        try:
+            p.wait(timeout=timeout_s)
+            timed_out = False
+        except subprocess.TimeoutExpired:
+            timed_out = True
+        if timed_out or True:
+            # make sure nothing of the group survives (orphaned cbmc would keep eating CPU)
+            try:
+                os.killpg(p.pid, signal.SIGKILL)
+            except Exception:
+                pass
+            try:
+                p.wait(timeout=10)
+            except Exception:
+                pass
+        if timed_out:
+            return None
+        out.seek(0)
+        return out.read()
 
 
 def ensure_replay_cache():
     ensure_backtrace_patch()
 
 
-def native_replay(harness_files, harness, vals, watchdog_s=20, annotations=()):
+def native_replay(harness_files, harness, vals, watchdog_s=20, annotations=(), inject=()):
     """Build the scratch copy natively with --cfg verif_replay (real std HashMap, no shim, no Kani) and run
     the harness with the recorded values.  Returns (reproduced: bool|None, output)."""
     d = scratch_root()
     try:
         dst = os.path.join(d, "repo")
-        prepare_copy(dst, harness_files, (), False)
+        prepare_copy(dst, harness_files, (), False, inject=inject)
         with Lock("replay-target"):
             env = dict(ENV, RUSTFLAGS="--cfg verif_replay -Awarnings", CARGO_TARGET_DIR=REPLAY_TARGET)
             b = subprocess.run(["cargo", "build", "--offline", "--example", "verif_replay"], cwd=dst, env=env,
